@@ -91,7 +91,7 @@ O('mergesort', 2, lambda s, **kw: petl.mergesort(s[0], s[1], key='k', **kw), pre
 O('mergesort-reverse', 2, lambda s, **kw: petl.mergesort(s[0], s[1], key='k', reverse=True, **kw))
 O('merge', 2, lambda s, **kw: petl.merge(s[0], s[1], key='k', **kw), presort=['k', 'k'])
 O('unjoin', 1, lambda s, **kw: petl.unjoin(s[0], 'v', **kw), presort=['v'], kind='multi')
-O('unjoin-key', 1, lambda s, **kw: petl.unjoin(s[0], 'v', key='k', **{k: v for k, v in kw.items() if k != 'presorted'}), kind='multi')
+O('unjoin-key', 1, lambda s, **kw: petl.unjoin(s[0], 'v', key='k', **kw), presort=['k'], kind='multi')     # presorted: sorted by the key only
 O('sort', 1, lambda s, **kw: petl.sort(s[0], 'k', **kw))
 O('recast', 1, lambda s, **kw: petl.recast(petl.melt(s[0], 'id'), **kw), kind='view')
 NO_STRATEGY = {'groupcountdistinctvalues', 'recast'}      # these take no strategy arguments: only config.sort_buffersize applies
